@@ -15,7 +15,10 @@ import plsscorr
 TRIGGERS = [('less and except', 'less_except', 'less and except'), ('Less & Except', 'less_except', 'less'), ('excepting', 'less_except', 'except'),
             ('insofar as', 'insofar', 'insofar'), ('only insofar', 'insofar', 'only insofar'), ('in so far as', 'insofar', 'in so far'),
             ('including', 'including', 'incl'), ('surface to the base of', 'depth', 'surface'), ('limited to depths', 'depth', 'depths'),
-            ('wellbore', 'well', 'wellbore'), ('well bore', 'well', 'well'), ('the Johnston #1 well', 'well', 'well'), ('from the top of the', 'depth', 'top')]
+            ('wellbore', 'well', 'wellbore'), ('well bore', 'well', 'well'), ('the Johnston #1 well', 'well', 'well'), ('from the top of the', 'depth', 'top'),
+            # the same wording with blanks and letters that only Unicode-aware `\s` / IGNORECASE accept: no-break and thin spaces, long s, dotted capital I
+            ('in\u00a0so\u00a0far as', 'insofar', 'far'), ('only in\u2009so far as', 'insofar', 'far'), ('in\u017fofar as', 'insofar', 'ofar'),
+            ('\u0130NSOFAR AS', 'insofar', 'nsofar'), ('le\u017fs and except', 'less_except', 'and except')]
 
 
 def typed_ok(obj):
